@@ -106,7 +106,7 @@ def lean_eval(cases, mode):
     lines = []
     for c in cases:
         lines += lean_lines(c, mode)
-    ans = C.lean_batch(lines)
+    ans = C.lean_batch(lines, jobs=min(16, max(1, len(cases) // 8)))
     return [lean_parse(c, ans[3 * i:3 * i + 3]) for i, c in enumerate(cases)]
 
 
@@ -268,11 +268,13 @@ def shrink(case, fails, used_nodes, rename):
     while progress:
         progress = False
         cands = []
-        for k in ("D", "B", "U", "C"):
-            for i in range(len(cur["g"].get(k, []))):
-                c = copy.deepcopy(cur)
-                del c["g"][k][i]
-                cands.append(c)
+        # drop all edges of one unordered pair (keeps the case inside the pair-kind domain)
+        prs = sorted(set((min(a, b), max(a, b)) for k in ("D", "B", "U", "C") for a, b in cur["g"].get(k, [])))
+        for pr in prs:
+            c = copy.deepcopy(cur)
+            for k in ("D", "B", "U", "C"):
+                c["g"][k] = [e for e in c["g"].get(k, []) if (min(e), max(e)) != pr]
+            cands.append(c)
         nodes = C.g_nodes(cur["g"])
         for v in nodes:
             if v in used_nodes(cur):
